@@ -381,7 +381,16 @@ def c05(rep, tier, seed, wd, replay):
                 f = h["ops"][i].split()
                 items = f[4].split(";") if f[0] == "msign" else ["x," + f[4]]
                 own = data.split(",")
-                if len(own) < 2 or len(own[1]) != 64:
+                if len(own) < 2:
+                    continue
+                d_hex = "" if own[0] in ("-", ".") else own[0]
+                r_hex = "" if own[1] in ("-", ".") else own[1]
+                # whatever the field lengths: if data||domain is 64 bytes, the bytes signed may be the signing root of
+                # (first 32 bytes, last 32 bytes) — a slashable message if those last 32 bytes are an attester/proposer domain
+                cat = r_hex + d_hex
+                if len(cat) == 128 and len(r_hex) != 64 and bytes.fromhex(cat[64:72]) in (DOM_ATT, DOM_PROP):
+                    cand.append((hi, i, j, key, sig, cat[:64], cat[64:]))
+                if len(own[1]) != 64:
                     continue
                 doms = set()
                 for it in items:
@@ -436,6 +445,16 @@ def c05_corpus(keys, rng):
                                                                   hx(accts[1].path), dom, r32))
                 ops.append(att_line("client1", n0, 1, len(ops) + 5, 0, dom=pfx + suffix))
                 ops.append(prop_line("client1", n0, len(ops) + 5, 0, dom=pfx + suffix))
+        # data and domain whose lengths are not 32/32 but whose concatenation is root||slashable-domain
+        for pfx in (DOM_ATT, DOM_PROP):
+            full = pfx + bytes([0x11]) * 28
+            for k in (1, 4, 16, 28, 31):
+                dat, dm = (bytes([0xA1]) * 32 + full[:k]).hex(), full[k:].hex()
+                ops.append("sign %s %s %s %s,%s -" % (hx("client1"), hx("10.0.0.1"), n0, dm, dat))
+                ops.append("msign %s %s - %s,%s,%s;n:%s,%s,%s" % (hx("client1"), hx("10.0.0.1"), n0, dm, dat, hx(accts[1].path), (DOM_RANDAO + bytes(28)).hex(), r32))
+            for k in (4, 16):
+                dat, dm = (bytes([0xA1]) * (32 - k)).hex(), ((bytes([0xA1]) * k) + full).hex()
+                ops.append("sign %s %s %s %s,%s -" % (hx("client1"), hx("10.0.0.1"), n0, dm, dat))
         ops.append("export")
         H.append({"cfg": cfg, "ops": ops, "accts": accts, "opts": {}})
     return H
@@ -876,6 +895,27 @@ def c08(rep, tier, seed, wd, replay):
             items.append("%s,%s,%d,%d,%s,%d,%s,%d,%s" % (adr(a), hist.dom32(DOM_ATT, rng).hex(), 7, 1, rt[0], s_, rt[1], t_, rt[2]))
         if rng.below(2) == 0:
             items.insert(rng.below(len(items) + 1), "n:%s,%s,7,1,%s,%d,%s,%d,%s" % (hx("Wallet 1/Nobody"), hist.dom32(DOM_ATT, rng).hex(), "11" * 32, epoch + 2, "22" * 32, epoch + 3, "33" * 32))
+        ops.append("atts %s - - %s" % (hx("c"), ";".join(items)))
+        epoch += 4
+        # neighbours that differ in exactly ONE field (slot, committee, each root, each epoch, domain suffix), all to be
+        # signed: whatever is shared or reused between neighbouring entries of a worker's extent must not leak across
+        cur = {"dom": (DOM_ATT + bytes(28)).hex(), "slot": 9, "cidx": 2, "bbr": "b1" * 32, "s": epoch, "sr": "c1" * 32, "t": epoch + 1, "tr": "d1" * 32}
+        fields = ["sr", "tr", "bbr", "slot", "cidx", "dom", "s", "t"]
+        items = []
+        for j, a in enumerate(picks):
+            if j > 0:
+                fld = fields[(j - 1) % len(fields)] if n > 2 else rng.choice(fields)
+                if fld in ("sr", "tr", "bbr"):
+                    cur[fld] = bytes([rng.below(256)]).hex() * 32
+                elif fld in ("slot", "cidx"):
+                    cur[fld] += 1 + rng.below(3)
+                elif fld == "dom":
+                    cur[fld] = (DOM_ATT + bytes([rng.below(256)]) * 28).hex()
+                elif fld == "s":
+                    cur["s"] = epoch if cur["s"] != epoch else epoch - 1
+                else:
+                    cur["t"] = epoch + 1 if cur["t"] != epoch + 1 else epoch + 2
+            items.append("%s,%s,%d,%d,%s,%d,%s,%d,%s" % (adr(a), cur["dom"], cur["slot"], cur["cidx"], cur["bbr"], cur["s"], cur["sr"], cur["t"], cur["tr"]))
         ops.append("atts %s - - %s" % (hx("c"), ";".join(items)))
         epoch += 4
         ms = ";".join("%s,%s,%s" % (adr(a), hist.dom32(DOM_RANDAO, rng).hex(), bytes(rng.below(256) for _ in range(32)).hex()) for a in picks)
@@ -1560,7 +1600,7 @@ def c03(rep, tier, seed, wd, replay):
                            json.dumps({"config": h["cfg"], "ops": h["ops"][:i + 1], "impl": il[:300], "model": ml_[:300]}), found))
 
 
-DKG_DIFF_OPS = ("cluster", "gen", "holds", "hprepare", "hexecute", "hcontribute", "hcommit", "habort", "sleep")
+DKG_DIFF_OPS = ("cluster", "gen", "holds", "cprepare", "hprepare", "hexecute", "hcontribute", "hcommit", "habort", "sleep")
 
 
 def c18(rep, tier, seed, wd, replay):
@@ -1817,7 +1857,7 @@ def c19(rep, tier, seed, wd, replay):
         rep.broken.append(("correspondence:tls(transport model with the regenerated client-auth mode vs daemon)", json.dumps(first_bad), found))
 
 
-DKG_DIFF_OPS_C14 = ("iatt", "iatts", "iprop")
+DKG_DIFF_OPS_C14 = ("iatt", "iatts", "iatts2", "iprop")
 
 
 def c14(rep, tier, seed, wd, replay):
@@ -2007,7 +2047,7 @@ def c12(rep, tier, seed, wd, replay):
                 rep.dist("generation", "ok")
             elif f[0] == "gen":
                 rep.dist("generation", "refused")
-            if f[0] == "relations":
+            if f[0] == "relations" and f[1] in pubs:      # judged only for a name whose generation reported success
                 if not o.startswith("ok") or ("composite=" + pubs.get(f[1], "?")) not in o:
                     rep.violation("inconsistent-key", "after a successful generation the participants do not hold one consistent threshold key: " + o[:120],
                                   {"scenario": r_["tag"], "lines": r_["lines"][:i + 1], "impl": r_["impl"][:i + 1]})
@@ -2226,6 +2266,12 @@ def c17(rep, tier, seed, wd, replay):
                 ll.append("jlife-reset %s" % f[2]); lm.append(None)
             elif f[0] == "sleep":
                 ll.append("jlife-sleep %s" % f[1]); lm.append(None)
+            elif f[0] == "cprepare" and i < len(r_["impl"]) and r_["impl"][i].startswith("ok="):
+                nok = int(r_["impl"][i][3:])
+                rep.dist("concurrent_prepares_accepted", str(nok))
+                for q_ in range(int(f[4])):
+                    ll.append("jlife prepare %s %s %s" % (f[1], f[3], "ok" if q_ < nok else "no"))
+                    lm.append((ri, i))
             elif f[0] in ("hprepare", "hexecute", "hcontribute", "hcommit", "habort") and i < len(r_["impl"]):
                 ll.append("jlife %s %s %s %s" % (f[0][1:], f[1], f[3], "ok" if r_["impl"][i].strip() == "ok" else "no"))
                 lm.append((ri, i))
